@@ -537,6 +537,11 @@ func isChainNode(node Node) (chainnodeAlias, bool) {
 	if ok {
 		return &shift.chainnode, true
 	}
+	// The Delete field of BarrierNode hides the Delete chain method.
+	barrier, ok := node.(*BarrierNode)
+	if ok {
+		return &barrier.chainnode, true
+	}
 	return nil, false
 }
 
